@@ -125,6 +125,8 @@ def main(pid):
         rep.count("states", max(r.distinct, r.generated))
         rep.count("transitions", r.generated)
         allcases += [(c["origin"], layout.render(c["toks"])) for c in cs]
+    # witnesses of recorded findings that only the thorough universes derive
+    allcases.append(("finding:C10-blank-in-instantiated-name", "template < T = { Tpl < unsigned char > , Key } > void f ( ) ;\n"))
     for f in sorted(glob.glob(os.path.join(common.REPO, "tests", "fixtures", "*.i"))):
         with open(f) as fh:
             allcases.append((os.path.basename(f), fh.read()))
@@ -140,6 +142,14 @@ def main(pid):
                 outcomes["not-judged:duplicate-names"] = outcomes.get("not-judged:duplicate-names", 0) + 1
             elif ob["outcome"] == "ok":
                 batch.append({"id": oid, "inst": ob["inst"], "opts": opts, "files": ob["files"], "cpp": ob["cpp"], "ncpp": ob["ncpp"]})
+            elif ob["outcome"] == "unscannable" and any(" " in os.path.basename(p_) for p_ in ob.get("files", {})):
+                # an instantiated name with a blank in it (template argument `unsigned char`): the file / function name is
+                # not a MATLAB identifier - a C10 matter, and nothing else in the module can be scanned
+                outcomes["instantiated-name-with-blank"] = outcomes.get("instantiated-name-with-blank", 0) + 1
+                if pid == "C10":
+                    rep.violation("C10:artefact-name-is-not-an-identifier", "MultiWordTypeInInstantiatedName",
+                                  {"origin": origin, "text": text, "opts": opts,
+                                   "files": [p_ for p_ in ob["files"] if " " in os.path.basename(p_)]})
             elif ob["outcome"] == "unscannable":
                 raise RuntimeError("scanner cannot read generated MATLAB output (%s) for %s" % (ob["detail"], origin))
             elif ob["outcome"].startswith("gen-exc") and pid == "C10":
